@@ -713,7 +713,12 @@ impl<'a> Gen<'a> {
                 0 => { self.bump("s_label"); MKind::Label(self.rng.pick(&LABELS).to_string()) },
                 1 => { self.bump("s_interrupt"); MKind::Interrupt(self.expr(1)) },
                 2 => { self.bump("s_abs_time"); MKind::AbsTime(self.int_value()) },
-                _ => { self.bump("s_rel_time"); MKind::RelTime(self.expr(1), if self.rng.chance(1, 2) { Some(self.int_value()) } else { None }) },
+                _ => {
+                    self.bump("s_rel_time");
+                    let mut e = self.expr(1);
+                    while !self.defects && first_text_char(&e) == Some('+') { e = self.expr(1); }
+                    MKind::RelTime(e, if self.rng.chance(1, 2) { Some(self.int_value()) } else { None })
+                },
             },
             10 => { self.bump("s_const_item"); MKind::Item(Box::new(self.const_item())) },
             11 => if self.rng.chance(1, 3) { self.bump("s_noinstr"); MKind::NoInstr } else { self.bump("s_callsub"); self.callsub() },
@@ -1099,8 +1104,8 @@ fn top_info(top: &Top) -> TopInfo {
         Top::File(f) => { for it in &f.items { item_exprs(it, &mut es); } (f.items.iter().any(item_has_callsub), "file") },
     };
     TopInfo {
-        cert: es.iter().all(|e| pr_expr(e)) && top_keys_ok(top),
-        known: if callsub { Some("c08-callsub") } else if !top_keys_ok(top) { Some("c08-meta-negative-key") } else { es.iter().filter_map(|e| defect_class(e)).next() },
+        cert: es.iter().all(|e| pr_expr(e)) && top_keys_ok(top) && !top_plus_glue(top),
+        known: if callsub { Some("c08-callsub") } else if !top_keys_ok(top) { Some("c08-meta-negative-key") } else if top_plus_glue(top) { Some("c08-glue:plus-plus") } else { es.iter().filter_map(|e| defect_class(e)).next() },
         ftab: float_tab(&es), parser_form: es.iter().all(|e| in_parser_form(e)), what,
     }
 }
@@ -1114,6 +1119,23 @@ fn top_keys_ok(top: &Top) -> bool {
         Top::File(f) => f.items.iter().all(|i| match i { MItem::Meta { fields, .. } => meta_keys_ok(&MMeta::Object(fields.clone())), _ => true }),
         Top::Stmt(_) => true,
     }
+}
+/// a relative time label `+delta:` whose delta prints with a leading `+` (pre-increment): `+++x:`
+fn stmt_plus_glue(s: &MStmt) -> bool {
+    match &s.kind {
+        MKind::RelTime(e, _) => first_text_char(e) == Some('+'),
+        MKind::Item(i) => item_plus_glue(i),
+        MKind::Loop(b) | MKind::Block(b) => b.iter().any(stmt_plus_glue),
+        MKind::CondChain(cbs, els) => cbs.iter().any(|(_, _, b)| b.iter().any(stmt_plus_glue)) || els.iter().flatten().any(stmt_plus_glue),
+        MKind::While { block, .. } | MKind::Times { block, .. } => block.iter().any(stmt_plus_glue),
+        _ => false,
+    }
+}
+fn item_plus_glue(i: &MItem) -> bool {
+    match i { MItem::Func { code, .. } => code.iter().flatten().any(stmt_plus_glue), MItem::Script { code, .. } => code.iter().any(stmt_plus_glue), _ => false }
+}
+fn top_plus_glue(top: &Top) -> bool {
+    match top { Top::Stmt(s) => stmt_plus_glue(s), Top::File(f) => f.items.iter().any(item_plus_glue), Top::Meta(_) => false }
 }
 fn print_top(top: &Top, w: usize) -> Result<String, String> {
     match top { Top::Stmt(s) => print_with(&to_stmt(s), w), Top::Meta(m) => print_with(&to_meta(m), w), Top::File(f) => print_with(&to_file(f), w) }
@@ -1413,7 +1435,7 @@ fn run_input(term: &str) -> R<()> {
 
 /// the minimal instances of the defects known on the unchanged tree (DESIGN section 6, #11, #12, #17 and the
 /// ones found while building this check); they go through the same oracle as everything else
-const KNOWN_DEFECT_INPUTS: [&str; 17] = [
+const KNOWN_DEFECT_INPUTS: [&str; 18] = [
     r#"RExpr true 100%nat (FUn "-" (FLitI (-3) (IF true RDec)))"#,
     r#"RText "stmt" "x = -2147483648;""#,
     r#"RExpr true 100%nat (FUn "-" (FXcr true false (VNamed None "x")))"#,
@@ -1430,6 +1452,7 @@ const KNOWN_DEFECT_INPUTS: [&str; 17] = [
     r#"RText "stmt" "x = rad (5, y);""#,
     r#"RText "stmt" "@foo(@mask=1, 2);""#,
     r#"RText "stmt" "interrupt[f(1, 2)]:""#,
+    r#"RText "stmt" "+ ++x:""#,
     r#"RText "meta" "{ 4294967295: 1 }""#,
 ];
 
